@@ -1419,6 +1419,9 @@ pub mod tests {
     }
 }
 
+#[cfg(kani)]
+mod verif_kani;
+
 /// Verification hooks: thin public wrappers around crate-private helpers, compiled only with
 /// `--cfg arkworks_rs_poly_commit_verif` (or under Kani). They add no behaviour.
 #[cfg(any(kani, arkworks_rs_poly_commit_verif))]
